@@ -266,13 +266,15 @@ theorem after_path_state (restore dynamic : Bool) (r : PathResult α ω) :
       if restore = true ∧ dynamic = false then (r.bestWeights, false) else (r.curW, restore && dynamic) := by
   cases restore <;> cases dynamic <;> rfl
 
-/-- **`_path` hands the estimator back with its own `alpha`** (`clf.set_params(alpha=initial_alpha)` before `return`):
-    whenever `_path` returns — normal exit or NaN abort — `clf.alpha` is the value it had on entry, not `0` and not the
-    last alpha of the path. -/
+/-- **`_path` hands the estimator back with its own `alpha`** (`finally: clf.set_params(alpha=initial_alpha)`):
+    on every way out of the Python function — normal exit, NaN abort, or the `UnboundLocalError` of `max_patience ≤ 0` —
+    `clf.alpha` is the value it had on entry, not `0` and not the last alpha of the path. -/
 theorem path_returns_with_initial_alpha (alpha0 : α) (maxIter d : Nat) (args : PathArgs α) (tr : Trace α ω)
-    (hx : (runPath alpha0 maxIter d args tr).1.exit = .normal ∨ (runPath alpha0 maxIter d args tr).1.exit = .nanAbort) :
+    (hx : (runPath alpha0 maxIter d args tr).1.exit = .normal ∨ (runPath alpha0 maxIter d args tr).1.exit = .nanAbort ∨
+          (runPath alpha0 maxIter d args tr).1.exit = .unboundScore) :
     (runPath alpha0 maxIter d args tr).1.clfAlpha = alpha0 := by
-  change (restoreAlpha alpha0 _).exit = .normal ∨ (restoreAlpha alpha0 _).exit = .nanAbort at hx
+  change (restoreAlpha alpha0 _).exit = .normal ∨ (restoreAlpha alpha0 _).exit = .nanAbort ∨
+    (restoreAlpha alpha0 _).exit = .unboundScore at hx
   rw [restoreAlpha_exit] at hx
   exact restoreAlpha_clfAlpha alpha0 _ hx
 
